@@ -69,19 +69,19 @@ Definition bw_complete (types : list string) : bool := forallb (fun t => str_in 
 
 Lemma bw_loop_ok : forall sh f ms,
   bw_loop sh f ms = Ok tt <->
-  (forall m, In m ms -> str_in (msg_type m) (sh_bw_types sh) = true -> forall d, In d (moved_by m) -> frozen f d = false).
+  (forall m, In m ms -> str_in (msg_type m) (sh_bw_types sh) = true -> forall d, In d (moved_by (f_native f) m) -> frozen f d = false).
 Proof.
   induction ms as [|m ms IH]; simpl.
   - split; [intros _ m [] | reflexivity].
   - destruct (str_in (msg_type m) (sh_bw_types sh)) eqn:T; simpl.
-    + destruct (existsb (frozen f) (moved_by m)) eqn:E.
+    + destruct (existsb (frozen f) (moved_by (f_native f) m)) eqn:E.
       * split; [discriminate|]. intros H. exfalso.
         apply existsb_exists in E. destruct E as [d [Hd Hf]].
         rewrite (H m (or_introl eq_refl) T d Hd) in Hf. discriminate.
       * rewrite IH. split.
         -- intros H m' [<-|Hin] Ht d Hd.
            ++ destruct (frozen f d) eqn:F; [|reflexivity].
-              assert (existsb (frozen f) (moved_by m) = true) by (apply existsb_exists; eauto). congruence.
+              assert (existsb (frozen f) (moved_by (f_native f) m) = true) by (apply existsb_exists; eauto). congruence.
            ++ eapply H; eauto.
         -- intros H m' Hin. apply H. right; exact Hin.
     + rewrite IH. split.
@@ -89,20 +89,26 @@ Proof.
       * intros H m' Hin. apply H. right; exact Hin.
 Qed.
 
-Lemma moved_type : forall m, moved_by m <> [] -> In (msg_type m) transfer_types.
-Proof. destruct m; simpl; intros H; auto; contradiction. Qed.
+(* a message outside the three caller-chosen-denomination types moves at most the native token *)
+Lemma moved_type : forall nat m d, In d (moved_by nat m) -> In (msg_type m) transfer_types \/ d = nat.
+Proof.
+  intros nat m d H. destruct m; simpl; auto.
+  - unfold moved_by in H. simpl in H. destruct H as [H|[]]. right. auto.
+Qed.
 
 (* the freeze filter is sound for every message position as soon as it inspects all three
-   transfer-capable message types *)
+   message types that move a caller-chosen denomination (an Ethereum native send moves the native
+   token only, which is never frozen) *)
 Lemma frozen_never_moves_complete : forall sh f ms,
   bw_complete (sh_bw_types sh) = true ->
   bw_loop sh f ms = Ok tt ->
-  forall m, In m ms -> forall d, In d (moved_by m) -> frozen f d = false.
+  forall m, In m ms -> forall d, In d (moved_by (f_native f) m) -> frozen f d = false.
 Proof.
   intros sh f ms C H m Hin d Hd.
-  rewrite bw_loop_ok in H. eapply H; eauto.
-  unfold bw_complete in C. rewrite forallb_forall in C. apply C.
-  apply moved_type. intro E. rewrite E in Hd. destruct Hd.
+  destruct (moved_type _ _ _ Hd) as [T| ->].
+  - rewrite bw_loop_ok in H. eapply H; eauto.
+    unfold bw_complete in C. rewrite forallb_forall in C. apply C. exact T.
+  - apply native_never_frozen.
 Qed.
 
 (* whatever the inspected types are, a bank send of a frozen token is refused at any position *)
@@ -123,7 +129,7 @@ Definition wit_filt : filt := mkFilt "ukex" (mkBW ["frozen"%string] []) true fal
 Lemma frozen_never_moves_incomplete : forall sh,
   bw_complete (sh_bw_types sh) = false ->
   exists f ms, bw_loop sh f ms = Ok tt /\
-               exists m d, In m ms /\ In d (moved_by m) /\ frozen f d = true.
+               exists m d, In m ms /\ In d (moved_by (f_native f) m) /\ frozen f d = true.
 Proof.
   intros sh C. unfold bw_complete, transfer_types in C. simpl in C.
   destruct (str_in "send" (sh_bw_types sh)) eqn:S; simpl in C.
@@ -141,7 +147,7 @@ Proof.
 Qed.
 
 Lemma frozen_never_moves_iff : forall sh,
-  (forall f ms, bw_loop sh f ms = Ok tt -> forall m, In m ms -> forall d, In d (moved_by m) -> frozen f d = false)
+  (forall f ms, bw_loop sh f ms = Ok tt -> forall m, In m ms -> forall d, In d (moved_by (f_native f) m) -> frozen f d = false)
   <-> bw_complete (sh_bw_types sh) = true.
 Proof.
   intros sh. split.
@@ -156,7 +162,7 @@ Definition poor_shape_ok (sh : shape) : bool := (negb (sh_poor_send_returns sh) 
 
 Lemma poor_loop_head : forall sh f m ms, poor_loop sh f (m :: ms) = Ok tt -> allowed_on_weak f m = true.
 Proof.
-  intros sh f m ms H. unfold allowed_on_weak. destruct m as [fr to amt|fr inp outs|fr to amt rw|ty ss fl mk]; simpl in H.
+  intros sh f m ms H. unfold allowed_on_weak. destruct m as [fr to amt|fr inp outs|fr to amt rw|fr to v|ty ss fl mk]; simpl in H.
   - destruct amt as [|[d a] rest]; [discriminate|].
     destruct rest as [|c rest']; simpl in H.
     + destruct (String.eqb d (f_native f)) eqn:E; simpl in H; [|discriminate].
@@ -166,6 +172,7 @@ Proof.
     + discriminate.
   - simpl. destruct (str_in "multisend" (f_poor_msgs f)); [reflexivity | discriminate].
   - simpl. destruct (str_in "custody_send" (f_poor_msgs f)); [reflexivity | discriminate].
+  - simpl. destruct (str_in "ethereum_tx" (f_poor_msgs f)); [reflexivity | discriminate].
   - simpl. destruct (str_in ty (f_poor_msgs f)); [reflexivity | discriminate].
 Qed.
 
@@ -174,13 +181,14 @@ Lemma poor_loop_tail : forall sh f m ms,
 Proof.
   intros sh f m ms S H. unfold poor_shape_ok in S. apply Bool.andb_true_iff in S. destruct S as [S1 S2].
   apply Bool.negb_true_iff in S1, S2.
-  destruct m as [fr to amt|fr inp outs|fr to amt rw|ty ss fl mk]; simpl in H; rewrite ?S1, ?S2 in H.
+  destruct m as [fr to amt|fr inp outs|fr to amt rw|fr to v|ty ss fl mk]; simpl in H; rewrite ?S1, ?S2 in H.
   - destruct amt as [|[d a] rest]; [discriminate|].
     destruct (negb (is_nil rest) || negb (String.eqb d (f_native f)))%bool; [discriminate|].
     destruct (negb (u64_ok a)); [discriminate|].
     destruct (f_max_send f <? a); [discriminate | exact H].
   - destruct (str_in "multisend" (f_poor_msgs f)); [exact H | discriminate].
   - destruct (str_in "custody_send" (f_poor_msgs f)); [exact H | discriminate].
+  - destruct (str_in "ethereum_tx" (f_poor_msgs f)); [exact H | discriminate].
   - destruct (str_in ty (f_poor_msgs f)); [exact H | discriminate].
 Qed.
 
